@@ -83,6 +83,9 @@ func genRangePlan(r *rand.Rand, tier string) *ProxyPlan {
 	if (idx/320)%5 == 3 {
 		rs.RangeMode = "honor"
 	}
+	// the origin declares no length (chunked) in a third of the settings: the stored head then has no
+	// Content-Length of its own
+	rs.NoLength = (idx/1600)%3 == 2
 	p.Res = []PRes{rs}
 	reqs := []PReq{{Res: 0}}
 	const per = 24
@@ -134,6 +137,9 @@ func genRangePlan(r *rand.Rand, tier string) *ProxyPlan {
 			q.IfRange = "garbage"
 		case 6:
 			q.IfRange = `W/"r0-v1"`
+		case 7:
+			// degenerate values: empty, a lone quote, a weak prefix without a tag, one character
+			q.IfRange = []string{"@empty", `"`, "W/", "x", `""`}[r.IntN(5)]
 		}
 		reqs = append(reqs, q)
 	}
@@ -210,6 +216,13 @@ func judgeRange(w *proxyWorld, res *Result) {
 			}
 		case 200:
 			res.Probes["range_200"]++
+			// "the full 200": the whole representation, and nothing that announces a slice
+			if cr := ex.Hdr.Get("Content-Range"); cr != "" {
+				res.violate("C07.c", "full-200-announces-a-slice: "+cls, "%s: answered 200 with Content-Range %q [%s]", desc, cr, pd)
+			}
+			if int64(len(ex.Body)) != size && ex.Method != "HEAD" {
+				res.violate("C07.c", "full-200-is-not-the-full-body: "+cls, "%s: answered 200 with %d body bytes, the representation has %d [%s]", desc, len(ex.Body), size, pd)
+			}
 		default:
 			res.violate("C07.c", fmt.Sprintf("status-%d: %s", ex.Status, cls), "%s: proxy answered %d [%s]", desc, ex.Status, pd)
 		}
